@@ -17,7 +17,7 @@ type Term struct {
 	Args []*Term
 	K    *big.Int // Op=="const"
 	W    int
-	bv   *BV // Op=="bits"
+	bv   *BV        // Op=="bits"
 	Coef []*big.Int // Op=="lin": coefficients of Args; K is the constant
 	key  string
 }
@@ -175,7 +175,7 @@ type FuncV struct {
 	Bindings []Val
 }
 
-func (NilV) String() string      { return "nil" }
+func (NilV) String() string       { return "nil" }
 func (s SymConst) String() string { return s.Name }
 
 func constBV(v *big.Int, w int, signed bool) *BV {
